@@ -76,25 +76,26 @@ func sortedUniqueStrings(xs []string) []string {
 	return out
 }
 
-// perChannel: the trigger settings PrepareRun gives each channel below nchan that the saved list names
-// (a later entry of the list wins), without the edge-multi switch, which PrepareRun turns off on purpose.
-func perChannel(fts []dastard.FullTriggerState, nchan int, only map[int]bool) map[int]string {
-	out := map[int]string{}
-	for i := range fts {
-		ts := fts[i].TriggerState
-		ts.EdgeMulti = false
-		for _, c := range fts[i].ChannelIndices {
-			if c >= 0 && c < nchan && (only == nil || only[c]) {
-				out[c] = mustJSON(ts)
-			}
-		}
-	}
-	return out
-}
-
 // restoreView: the part of a persisted structure that a start-up can give back whatever the hardware:
 // the fields dastard overwrites with what it finds on the machine are left out, the lists it sorts are sorted.
 func restoreView(key string, js string, channels map[int]bool) (string, map[int]bool, error) {
+	if key == "trigger" {
+		// either the list dastard publishes or the canonical table
+		t, err := parseTriggerTable(js)
+		if err != nil {
+			return "", nil, err
+		}
+		pc := map[int]string{}
+		named := map[int]bool{}
+		for c, ts := range t {
+			ts.EdgeMulti = false
+			if c >= 0 && c < sentinelChannels && (channels == nil || channels[c]) {
+				pc[c] = mustJSON(ts)
+				named[c] = true
+			}
+		}
+		return mustJSON(pc), named, nil
+	}
 	z := typedZero(key)
 	if err := json.Unmarshal([]byte(js), z); err != nil {
 		return "", nil, err
@@ -110,13 +111,6 @@ func restoreView(key string, js string, channels map[int]bool) (string, map[int]
 		return mustJSON(project(key, x)), nil, nil
 	case *dastard.WritingState:
 		return mustJSON(project(key, x)), nil, nil
-	case *[]dastard.FullTriggerState:
-		pc := perChannel(*x, sentinelChannels, channels)
-		named := map[int]bool{}
-		for c := range pc {
-			named[c] = true
-		}
-		return mustJSON(pc), named, nil
 	}
 	return mustJSON(z), nil, nil
 }
@@ -157,7 +151,7 @@ func runRestart(scratch string, s Snap) restartResult {
 	base := freePortBlock(5)
 	cmd := exec.Command(bin)
 	cmd.Dir = home
-	cmd.Env = []string{"HOME=" + home, "DASTARD_VERIF_C16=ports", fmt.Sprintf("DASTARD_VERIF_C16_PORT=%d", base), "PATH=" + os.Getenv("PATH")}
+	cmd.Env = append([]string{"HOME=" + home, "DASTARD_VERIF_C16=ports", fmt.Sprintf("DASTARD_VERIF_C16_PORT=%d", base), "PATH=" + os.Getenv("PATH")}, decoyEnv()...)
 	var stderr bytes.Buffer
 	cmd.Stdout = nil
 	cmd.Stderr = &stderr
